@@ -60,9 +60,10 @@ pub fn mask_case(max_dim: u32) -> BoxedStrategy<MaskCase> {
                 any::<bool>(),
                 proptest::collection::vec(any::<bool>(), 10),
                 any::<bool>(),
+                (0u8..5, 0u8..5),
             )
         })
-        .prop_map(|((bw, bh, focal, near, far, ortho), tris, mut cfg, target, bg, batch, cuts, shared)| {
+        .prop_map(|((bw, bh, focal, near, far, ortho), tris, mut cfg, target, bg, batch, cuts, shared, (fx, fy))| {
             cfg.depth_sort = 0;
             let aspect = bw as f32 / bh as f32;
             // twins: a triangle flagged true is followed by itself with two vertices exchanged
@@ -100,6 +101,7 @@ pub fn mask_case(max_dim: u32) -> BoxedStrategy<MaskCase> {
                 cfg,
                 shader_mode: 1,
                 shared_verts: shared,
+                flip: [fx == 0, fy == 0],
             };
             MaskCase { scene, view: view.iter().map(|t| t.map(xs)).collect(), ortho, calls }
         })
@@ -158,7 +160,9 @@ fn solo(c: &MaskCase, t: usize) -> Result<Solo, Fail> {
     let subs = clipped_screen_tris(&c.scene, t);
     let min_sub_area = subs.iter().map(|q| orient2(q[0], q[1], q[2]).abs() / 2.0).fold(f64::MAX, f64::min);
     let v = c.view[t].map(|p| p.map(|x| x.0 as f64));
-    Ok(Solo { stream, n_sub: subs.len(), min_sub_area, facing: facing(&v, c.ortho) })
+    // the cull mode selects by ON-SCREEN winding: a viewport that mirrors exactly one axis reverses it
+    let parity = if c.scene.flip[0] != c.scene.flip[1] { -1 } else { 1 };
+    Ok(Solo { stream, n_sub: subs.len(), min_sub_area, facing: parity * facing(&v, c.ortho) })
 }
 
 #[derive(Default, Debug, PartialEq, Clone)]
@@ -307,6 +311,9 @@ pub fn check_mask(c: &MaskCase, obs: &mut Obs) -> Check {
         obs.class("shader:discarding");
     }
     obs.class(if has_depth { "target:framebuf" } else { "target:colour-only" });
+    if sc.flip[0] != sc.flip[1] {
+        obs.class("viewport:mirrored-on-one-axis");
+    }
     obs.class(match c.calls.len() {
         1 => "calls:1",
         2 => "calls:2",
@@ -390,6 +397,7 @@ pub fn check_solid(c: &SolidCase, obs: &mut Obs) -> Check {
         cfg: Cfg { face_cull: cull, ..Cfg::plain() },
         shader_mode: 1,
         shared_verts: false,
+            flip: [false, false],
     };
     let sc_back = mk(1);
     let sc_front = mk(2);
